@@ -199,7 +199,18 @@ class SyncIter(Iterable):
         if self._stopped is None:
             return
         self._stopped.set()
-        self._worker_thread.join()
+        q = self._q
+        while True:
+            # The worker may be blocked putting into the full queue;
+            # keep the queue drained until the thread has exited.
+            while True:
+                try:
+                    q.get_nowait()
+                except queue.Empty:
+                    break
+            self._worker_thread.join(timeout=0.01)
+            if not self._worker_thread.is_alive():
+                break
         self._stopped = None
 
     def __iter__(self):
